@@ -216,16 +216,16 @@ Fixpoint vrun (fixed : bool) (s : store) (ops : list vop) : list (vres * list ov
 Definition md_same_b (x y : option metadata) : bool :=
   md_incl (md_entries x) (md_entries y) && md_incl (md_entries y) (md_entries x) && option_same x y.
 
+Fixpoint metas_go (skip : option nat) (i : nat) (b a : list oview) : bool :=
+  match b, a with
+  | [], _ => true
+  | x :: b', y :: a' =>
+      (match skip with Some j => Nat.eqb i j | None => false end || md_same_b (meta (ov_val x)) (meta (ov_val y)))
+      && metas_go skip (S i) b' a'
+  | _ :: _, [] => false
+  end.
 Definition metas_unchanged_except (skip : option nat) (before after : list oview) : bool :=
-  let fix go (i : nat) (b a : list oview) : bool :=
-    match b, a with
-    | [], _ => true
-    | x :: b', y :: a' =>
-        (match skip with Some j => Nat.eqb i j | None => false end || md_same_b (meta (ov_val x)) (meta (ov_val y)))
-        && go (S i) b' a'
-    | _ :: _, [] => false
-    end in
-  go 0 before after.
+  metas_go skip 0 before after.
 
 Definition set_effect_ok (k v : str) (before after : option metadata) : bool :=
   match before, after with
@@ -287,3 +287,11 @@ Fixpoint script_scoped (n : nat) (ops : list vop) : bool :=
   | [] => true
   | op :: ops' => op_scoped n op && script_scoped (if creates op then S n else n) ops'
   end.
+
+(** the store after a script; the stores the theorems talk about are the ones a (scoped) script
+    can produce from nothing *)
+Fixpoint vexec (f : bool) (s : store) (ops : list vop) : store :=
+  match ops with [] => s | op :: ops' => vexec f (fst (vstep f s op)) ops' end.
+Definition reachable (s : store) : Prop :=
+  exists f ops, script_scoped 0 ops = true /\ s = vexec f empty_store ops.
+Definition set_op (t : nat * str * str) : vop := VSet (fst (fst t)) (snd (fst t)) (snd t).
